@@ -54,3 +54,10 @@ func (c *Channel) VerifTimersPending() (rekey, handshake bool) {
 
 // VerifHandshakeAttempts is the number of retransmission intervals after which a prospective session is given up.
 func VerifHandshakeAttempts() int { return handshakeAttempts }
+
+// VerifWaiting is the number of callers blocked waiting for a session.
+func (c *Channel) VerifWaiting() int {
+	c.mu.RLock()
+	defer c.mu.RUnlock()
+	return c.waiting
+}
